@@ -245,4 +245,19 @@ def run_case(rng, tier, idx):
         sc = np.abs(Ae) + 1e-9 * np.abs(Ae).max() + 1e-300
         c.judge('Mach route equals the explicit coefficients of linear piston theory', float((np.abs(Am - Ae) / sc).max()), 1e-12)
         c.desc['mach'] = dict(Mach=Mach, rho_air=rho, V=V, speed_sound=a_s)
+        # the object that went through the Mach route is now given explicit coefficients (beta only, no curvature term stated):
+        # the matrix must be the one of the coefficients stated NOW, nothing may be left over from the derived ones
+        b2 = float(b_ * rng.uniform(0.3, 3.0))
+        pm.Mach = None; pm.beta = b2          # gamma was never stated on this object and is left alone
+        pf = gen.build_panel(d)
+        pf.flow = flow; pf.beta = b2; pf.gamma = None
+        pf.calc_k0(silent=True)
+        try:
+            A2 = pm.calc_kA(silent=True).toarray()
+            Af = pf.calc_kA(silent=True).toarray()
+            scf = np.abs(Af) + 1e-9 * np.abs(Af).max() + 1e-300
+            c.judge('explicit coefficients after a Mach-route evaluation on the same object give the matrix of the explicit coefficients',
+                    float((np.abs(A2 - Af) / scf).max()), 1e-12)
+        except Exception as e:
+            c.info['mach_then_explicit_rejected'] = repr(e)[:100]
     return c
